@@ -144,8 +144,8 @@ def run_scenario(scen, keep_events=False):
         if fault_free:
             # bounded liveness against the compliant, fault-free device
             res.violate('no-progress', outcome,
-                        'fault-free run against a compliant device did not finish: %s %s (requests=%d, budget=%d)'
-                        % (outcome, x['detail'][:200], dev.nreq, dev.step_cap))
+                        'fault-free run against a compliant device did not finish: %s %s (requests=%d, cap=%d; monitors fired: %s)'
+                        % (outcome, x['detail'][:200], dev.nreq, dev.step_cap, sorted(set(c for c, _ in dev.monitor)) or 'none'))
     remc = 'r0' if n % PAGE == 0 else ('r1' if n % PAGE == 1 else ('r1023' if n % PAGE == 1023 else 'rx'))
     reach_vec = ','.join(sorted(k for k in res.reach if not k.startswith('variant:')))
     res.sig = '%s|p%d|%s|%s|%s' % (scen['variant'], pages, remc, outcome, reach_vec)
